@@ -63,8 +63,9 @@ def main(argv):
         "wall_s": round(wall, 2), "violations": len(reported),
     }
     ev["coverage"]["known_findings_seen"] = sorted(seen_known.keys())
-    os.makedirs(os.path.join(VERIF, "evidence"), exist_ok=True)
-    with open(os.path.join(VERIF, "evidence", pid + ".json"), "w") as f:
+    evdir = os.environ.get("VERIF_EVIDENCE_DIR", os.path.join(VERIF, "evidence"))
+    os.makedirs(evdir, exist_ok=True)
+    with open(os.path.join(evdir, pid + ".json"), "w") as f:
         json.dump(ev, f, indent=1, sort_keys=True)
     log("%s %s: %d formulas, %d violation(s), %d known, %.1fs" % (pid, a.tier, len(res["coverage"].get("formulas", {})), len(reported), len(seen_known), wall))
     sys.exit(1 if reported else 0)
